@@ -143,7 +143,7 @@ func mayReturn(h *ssa.Function, idx int, isErr, p bool, cut map[an.Edge]bool) bo
 		if !reach[b] {
 			continue
 		}
-		ret, ok := b.Instrs[len(b.Instrs)-1].(*ssa.Return)
+		ret, ok := an.AsReturn(b.Instrs[len(b.Instrs)-1])
 		if !ok || idx >= len(ret.Results) {
 			continue
 		}
@@ -287,7 +287,7 @@ func (c *Ctx) hsGuards(mk *ssa.Function, tr *an.Tracer) (out []hsGuard, nbranche
 			var cmp ssa.Value
 			okForm := true
 			for _, b := range h.Blocks {
-				ret, ok := b.Instrs[len(b.Instrs)-1].(*ssa.Return)
+				ret, ok := an.AsReturn(b.Instrs[len(b.Instrs)-1])
 				if !ok || idx >= len(ret.Results) {
 					continue
 				}
@@ -575,7 +575,7 @@ func c07(c *Ctx) {
 		var rets []ssa.Instruction
 		for _, b := range hf.Blocks {
 			for _, in := range b.Instrs {
-				if ret, ok := in.(*ssa.Return); ok && len(ret.Results) == 2 && !an.IsNilConst(an.RetVal(ret, 0)) {
+				if ret, ok := an.AsReturn(in); ok && len(ret.Results) == 2 && !an.IsNilConst(an.RetVal(ret, 0)) {
 					rets = append(rets, ret)
 				}
 			}
@@ -629,7 +629,7 @@ func c07Decrypt(c *Ctx, mk *ssa.Function, tr *an.Tracer) {
 	var rets []ssa.Instruction
 	for _, b := range df.Blocks {
 		for _, in := range b.Instrs {
-			if ret, ok := in.(*ssa.Return); ok {
+			if ret, ok := an.AsReturn(in); ok {
 				rets = append(rets, ret)
 			}
 		}
@@ -739,7 +739,43 @@ func c07Decrypt(c *Ctx, mk *ssa.Function, tr *an.Tracer) {
 			r.Undecide("R07.G", "guard:resPQ.pq", c.pos(mk.Pos()), "no SplitPQ call in makeAuthKey")
 		}
 	}
-	// "abandoned with an error": a recover() on the exchange path must not turn the panic into a normal return
+	// "abandoned with an error": every way out of makeAuthKey other than the one behind `encrypted = true` hands
+	// back a certainly non-nil error (errors.Wrap of an err that is nil at that point is a nil return)
+	if mk := c.P.Func(load.RootMod, "*MTProto", "makeAuthKey"); mk != nil {
+		var done ssa.Instruction
+		for _, b := range mk.Blocks {
+			for _, in := range b.Instrs {
+				if st, ok := in.(*ssa.Store); ok {
+					if fa, ok := st.Addr.(*ssa.FieldAddr); ok && strings.HasSuffix(an.FieldName(fa.X.Type(), fa.Field), "MTProto.encrypted") {
+						if k, isK := st.Val.(*ssa.Const); isK && k.Value != nil && k.Value.ExactString() == "true" {
+							done = in
+						}
+					}
+				}
+			}
+		}
+		if done == nil {
+			r.Undecide("R07.P", "abort-returns-error", c.pos(mk.Pos()), "the store encrypted = true was not found in makeAuthKey")
+		} else {
+			var bad []string
+			n := 0
+			for _, b := range mk.Blocks {
+				ret, ok := an.AsReturn(b.Instrs[len(b.Instrs)-1])
+				if !ok || len(ret.Results) != 1 || b == mk.Recover {
+					continue
+				}
+				if an.InstrDominates(done, ret) {
+					continue // the completed exchange: its result is the result of saving the session
+				}
+				n++
+				if !an.NonNilError(an.RetVal(ret, 0), b) {
+					bad = append(bad, "the exit at "+c.pos(ret.Pos())+" may return nil")
+				}
+			}
+			r.Check(len(bad) == 0 && n > 0, "R07.P", "abort-returns-error", c.pos(mk.Pos()), sprintf("%d exits of makeAuthKey before the exchange is complete, each returns a certainly non-nil error; %s", n, strings.Join(bad, "; ")))
+		}
+	}
+	// a recover() on the exchange path must not turn the panic into a normal return
 	// with the results as they stand (a nil error) - the deferred function has to store a non-nil error into the
 	// function's result on the way out of the recovered panic
 	if cc := c.P.Func(load.RootMod, "*MTProto", "CreateConnection"); cc != nil {
@@ -864,7 +900,7 @@ func recoverReportsError(f *ssa.Function) (bool, string) {
 		}
 		reach := an.ReachFrom(g, test.EdgeWhen(false), cut)
 		for _, b := range g.Blocks {
-			if _, isRet := b.Instrs[len(b.Instrs)-1].(*ssa.Return); isRet && reach[b] && !good[b] {
+			if _, isRet := an.AsReturn(b.Instrs[len(b.Instrs)-1]); isRet && reach[b] && !good[b] {
 				return false, "after a recovered panic the deferred function returns without storing an error into the result (a `err :=` inside the closure declares a new variable)"
 			}
 		}
